@@ -27,7 +27,7 @@ MANIFEST = {
     "text": "A deferred pause is requested after every loop handle of plans with checkpoint spacing 1..8 and with no "
             "further checkpoint; the position of the pause, the emptiness of the replay and the pending flag across "
             "calls are checked.",
-    "note": "Corpus + spaced plans x all coordinates.",
+    "note": "Corpus + spaced plans x all coordinates; deferred request followed by a suspension (pairs).",
     "design_ref": "3 (C09)",
 }
 PLANS_Q = ["spaced1", "spaced3", "spaced8", "spaced_tail", "scan", "custom"]
